@@ -42,6 +42,10 @@ def main():
     if not os.path.exists(patch):
         patch = os.path.join(src, "patch.diff")
         demo = os.path.join(src, "demo.py")
+    # the check that is run; by default the one of the property the change was written against
+    chk = pid
+    if "--with-check" in sys.argv:
+        chk = sys.argv[sys.argv.index("--with-check") + 1]
     wt = "/tmp/evalwt_%s_%s" % (pid, x)
     sh(["git", "-C", "/repo", "worktree", "remove", "--force", wt])
     shutil.rmtree(wt, ignore_errors=True)
@@ -71,7 +75,7 @@ def main():
             # run our check against the patched scratch worktree (VERIF_REPO) instead of
             # touching /repo - used while a background soak reads /repo
             t0 = time.time()
-            crc, cout = sh([os.path.join(VERIF, "check"), pid, "--tier", tier, "--no-evidence"], cwd=VERIF,
+            crc, cout = sh([os.path.join(VERIF, "check"), chk, "--tier", tier, "--no-evidence"], cwd=VERIF,
                            env=dict(os.environ, VERIF_REPO=wt))
             meta["_wt_check"] = (crc, cout, round(time.time() - t0, 1))
     finally:
@@ -83,7 +87,7 @@ def main():
     if "_wt_check" in meta:
         crc, cout, wall = meta.pop("_wt_check")
         t0 = time.time() - wall
-        how = "VERIF_REPO=<scratch worktree with patch.diff applied> ./check %s --tier %s --no-evidence" % (pid, tier)
+        how = "VERIF_REPO=<scratch worktree with patch.diff applied> ./check %s --tier %s --no-evidence" % (chk, tier)
     else:
         rc, out = sh(["git", "-C", "/repo", "status", "--porcelain"])
         if out.strip():
@@ -93,16 +97,17 @@ def main():
         rc, out = sh(["git", "-C", "/repo", "apply", patch])
         assert rc == 0, out
         try:
-            crc, cout = sh([os.path.join(VERIF, "check"), pid, "--tier", tier, "--no-evidence"], cwd=VERIF)
+            crc, cout = sh([os.path.join(VERIF, "check"), chk, "--tier", tier, "--no-evidence"], cwd=VERIF)
         finally:
             sh(["git", "-C", "/repo", "checkout", "--", "."])
         rc, out = sh(["git", "-C", "/repo", "status", "--porcelain"])
         assert not out.strip(), "repo not clean after undo: " + out
-        how = "git -C /repo apply patch.diff; ./check %s --tier %s --no-evidence; git -C /repo checkout -- ." % (pid, tier)
+        how = "git -C /repo apply patch.diff; ./check %s --tier %s --no-evidence; git -C /repo checkout -- ." % (chk, tier)
     sigs = [l.split("violation signature ", 1)[1] for l in cout.splitlines() if l.startswith("violation signature ")]
     details = [l.strip() for l in cout.splitlines() if l.strip().startswith("detail:")]
     meta["check_exit"] = crc
-    meta["check_detected"] = crc == 1 and ("VIOLATION property=%s" % pid) in cout
+    meta["check_detected"] = crc == 1 and ("VIOLATION property=%s" % chk) in cout
+    meta["detected_by_check"] = chk if meta["check_detected"] else None
     meta["check_signatures"] = sigs[:5]
     meta["check_details"] = [d[:300] for d in details[:3]]
     meta["check_wall_s"] = round(time.time() - t0, 1)
